@@ -1,6 +1,7 @@
 package jschema
 
 import (
+	stdJSON "encoding/json"
 	stdErrors "errors"
 	"fmt"
 	"io"
@@ -126,7 +127,7 @@ func (s *Schema) AddType(name string, sc jschema.Schema) (err error) {
 			return fmt.Errorf("generate example for Regex type: %w", err)
 		}
 
-		typSc := New(name, fmt.Sprintf("%q // {regex: %q}", example, pattern))
+		typSc := New(name, quoteJSON(string(example))+" // {regex: "+quoteJSON(pattern)+"}")
 		if err := typSc.load(); err != nil {
 			return fmt.Errorf("load added type: %w", err)
 		}
@@ -138,6 +139,18 @@ func (s *Schema) AddType(name string, sc jschema.Schema) (err error) {
 	}
 
 	return nil
+}
+
+// quoteJSON returns s as a JSON string literal. The Go syntax produced by "%q"
+// isn't JSON for some characters (ex: "\x01", "\a", "\v").
+func quoteJSON(s string) string {
+	var b strings.Builder
+	enc := stdJSON.NewEncoder(&b)
+	enc.SetEscapeHTML(false)
+	if err := enc.Encode(s); err != nil {
+		return fmt.Sprintf("%q", s)
+	}
+	return strings.TrimSuffix(b.String(), "\n")
 }
 
 func (s *Schema) AddRule(n string, r jschema.Rule) error {
